@@ -1,5 +1,6 @@
 """C20 -- integer, vector and matrix helpers (DESIGN.md section 4, C20)."""
 import re
+from vf import lex
 from vf.extract import Source, Unit
 from vf.lex import Rule, ExtractionBreak
 from vf.pipeline import Group, Replay
@@ -13,7 +14,8 @@ EXPLANATION = ('log2i, every Vector2/3/4 member, Matrix4 M*v and reduce_fraction
                '(x,y), every byte offset k) are proved for one arbitrary ghost value fixed before the call. Independent conjuncts of the gcd / '
                'reduce_fraction contracts are discharged in separate runs (-DGCD_PART / -DRF_PART). Strict-weak-order laws, '
                'transpose-twice and gcd symmetry are lemmas proved over the contracts (callee replaced by its contract); '
-               'cross-product orthogonality is an ensures clause of cross (polynomial identity in Z/2^n, decided by cvc5).')
+               'cross-product orthogonality is an ensures clause of cross (polynomial identity in Z/2^n, decided by cvc5). '
+               'Matrix4<double>::invert / inverse: structure of the elimination against a reference over uninterpreted arithmetic (constant loops unwound).')
 TRUSTED = [
     'contracts/C20_math.h, C20_vec.h, C20_vec_ops.h, C20_mat.h, C20_random.h: the specification macros (divisibility, componentwise '
     'definitions, lexicographic order, m[column][row] convention of Matrix4)',
@@ -21,6 +23,8 @@ TRUSTED = [
     'bytes or io_error, memcpy with abstracted content (source readable; one arbitrary byte stored at an arbitrary offset of the '
     'destination range, so that every destination byte passes the pointer and assigns-clause checks), string(bytes, 0) = allocation or bad_alloc',
     "cbmc's built-in model of __builtin_clz / __builtin_clzll",
+    'contracts/C20_invert.h: the reference elimination spec_gauss_jordan (written from the textbook algorithm), the identity model of Matrix4<T>() (its text is decided by group Matrix4.ctor), '
+    "cbmc's treatment of __CPROVER_uninterpreted_* as uninterpreted functions; z3 is the only back end that answers this group",
 ]
 ASSUMPTIONS = [
     'gcd at 16/32/64 bits (groups "divisibility[abstract predicate, modulo Euclid step lemma]"): the Euclid step lemma d|x and d|y <=> d|y and d|(x mod y) '
@@ -38,7 +42,8 @@ DROPS = ('constexpr dropped; templates instantiated textually (IntT / T as macro
          'pointers, Vector<T>(..) temporaries become Vector_make(..); std::pair -> struct {first, second}; the function-local statics of '
          'random_data are hoisted (fd: part of the readx stub; buffer: file-scope model); std::string members -> model calls; '
          'not taken (not part of the property or not decidable here): norm() (sqrt), str(), Matrix4 element-wise operators, ==, !=, '
-         'operator*(Matrix4), operator*=, inverse(), invert()')
+         'operator*(Matrix4), operator*=; invert()/inverse(): entry arithmetic (/=, += .. * ..) rewritten to uninterpreted function symbols by rule '
+         '(anything else arithmetic in the body stops the extraction), Matrix4<T>() -> the identity model, T = double')
 NOT_DECIDED = [
     'gcd<IntT>: "divides both arguments / divisible by every common divisor" is proved for the 8-bit instantiations only (int8_t, uint8_t; '
     'loop contract, all values). The inductive step d|a and d|b <=> d|b and d|(a mod b) is non-linear: no back end decides it at 16 bits within '
@@ -49,7 +54,10 @@ NOT_DECIDED = [
     '(AB)v = A(Bv): Matrix4::operator*(Matrix4) accumulates in a double for every T; its contract needs '
     '(double)acc + (double)t == (double)(acc + t), which no back end decided within 300 s (cvc5 additionally hits an SMT2 generation error) -- '
     'the matrix product, and with it associativity with M*v, is not decided. M*v itself is proved (componentwise definition, uint64_t)',
-    'M * inverse(M) = I for diagonally dominant M: floating-point Gauss-Jordan elimination (rounding error bound), outside what the bit-precise back ends decide',
+    'M * inverse(M) = I for diagonally dominant M as a numerical statement (rounding-error bound of floating-point Gauss-Jordan elimination): outside what the bit-precise '
+    'back ends decide. Decided instead (groups Matrix4<double>.invert / .inverse): invert() equals the reference Gauss-Jordan elimination on [M | I] entry by entry and raises '
+    '"not invertible" exactly on a zero pivot, for every interpretation of + * / on the entries (uninterpreted functions, z3), all loops (constant bound 4) unwound completely; '
+    'that this elimination yields the inverse in exact arithmetic is textbook algebra, not machine-checked',
     'norm() (sqrt of a double) and the floating-point instantiations Vector<float/double>, Matrix4<float/double>: not decided; '
     'the integer instantiations int64_t / uint64_t / uint32_t are',
     'random_data: that the stored bytes are the bytes delivered by the source (byte values are abstracted); proved instead: every requested '
@@ -441,6 +449,61 @@ def random_groups(ctx):
               replay=rp('random_int')),
     ]
 
+# ------------------------------------------------------------------------------------------------------------
+# Matrix4<T>::invert / inverse: Gauss-Jordan structure over uninterpreted arithmetic (contracts/C20_invert.h)
+ENTRY = r'(?:left\.|self->|res\.)?m\[\w+\]\[\w+\]'
+
+
+def invert_unit(ctx, src):
+    u = Unit(ctx, 'invert')
+
+    def no_arith(body, where=''):
+        """every entry operation must have been lowered: no arithmetic operator may be left except the loop counters' ++ and the unary minus"""
+        m = re.sub(r'\b\w\+\+', '', lex.mask(body))
+        left = re.findall(r'[^\n;{}]*(?:[-+*/%]=|[/%]|[\w\])]\s*[*+]\s*[\w(]|[\w\])]\s+-\s+[\w(])[^\n;{}]*', m)
+        if left:
+            raise ExtractionBreak('%s: arithmetic outside the lowering table of C20 invert: %r' % (where, left[0].strip()[:80]))
+        return body
+    u.function(src, VINL, r'Matrix4<T>& Matrix4<T>::invert\(\)', new_header='Matrix4* Matrix4_invert(Matrix4* self)', ret_zero='0', nloops=4, loops={},
+               rules=[Rule('Matrix4<T> left = *this;', 'Matrix4 left = *self;', count=1),
+                      Rule(r'\*this = Matrix4<T>\(\);', 'Matrix4_identity(self);', count=1, regex=True),
+                      Rule('return *this;', 'return self;', count=1),
+                      # entry arithmetic -> the uninterpreted operations (type-directed: the operands are matrix entries / doubles)
+                      Rule(r'(%s) /= (\w+);' % ENTRY, r'\1 = UF_DIV(\1, \2);', count='+', regex=True),
+                      Rule(r'(%s) \+= (%s) \* (\w+);' % (ENTRY, ENTRY), r'\1 = UF_ADD(\1, UF_MUL(\2, \3));', count='+', regex=True),
+                      Fn20(no_arith)])
+    u.function(src, VINL, r'Matrix4<T> Matrix4<T>::inverse\(\) const', new_header='Matrix4 Matrix4_inverse(const Matrix4* self)', ret_zero='res',
+               rules=[Rule('Matrix4<T> res = *this;', 'Matrix4 res = *self;', count=1),
+                      Rule('res.invert();', 'Matrix4_invert(&res); if (verif_exc) return res;', count=1),
+                      Rule(r'\*this\b', '*self', count=None, regex=True)])
+    u.write()
+    return u
+
+
+class Fn20(Rule):
+    def __init__(self, fn):
+        self.fn, self.pat = fn, fn.__name__
+
+    def apply(self, text, where=''):
+        return self.fn(text, where)
+
+
+def invert_groups(ctx):
+    H = 'harness/C20/invert.c'
+    UNW = ['--unwind', '17', '--unwinding-assertions']
+    bound = 'all loops have the constant bound 4 and are unwound completely (unwinding assertions on): complete, not a bounded stand-in'
+    rp = lambda m: Replay(driver='C20/invert.cc', mode=m, sources=['src/Strings.cc', 'src/Filesystem.cc', 'src/Process.cc', 'src/Time.cc', 'src/Encoding.cc', 'src/Hash.cc', 'src/Random.cc'])
+    return [
+        Group(name='Vector.Matrix4<double>.invert', harness=H, entry='h_invert', function='Matrix4<double>::invert', enforce='Matrix4_invert',
+              kind='unwound-constant-loops', bound=bound, cbmc_flags=UNW, min_post=3, timeout=600, stage1=120, engines=['z3'], first='z3',     # uninterpreted functions: congruence closure (SAT back ends: Ackermann expansion, no answer in 900 s; cvc5: aborts on the double<->bits union)
+              clause_note='contracts/C20_invert.h: result == reference Gauss-Jordan elimination on [M | I] entry by entry (ghost entry), error iff zero pivot, '
+                          'for every interpretation of + * / on entries (uninterpreted functions)', replay=rp('invert')),
+        Group(name='Vector.Matrix4<double>.inverse', harness=H, entry='h_inverse', function='Matrix4<double>::inverse', enforce='Matrix4_inverse',
+              replace=['Matrix4_invert'], kind='loop-free', min_post=2, cbmc_flags=UNW,
+              clause_note='contracts/C20_invert.h: inverse() = invert() of a copy, the operand is not modified (assigns)', replay=rp('inverse')),
+    ]
+
+
 def plan(ctx):
     src = Source(ctx.src)
     groups = []
@@ -451,6 +514,9 @@ def plan(ctx):
     ctx.functions_under_contract += uv.functions
     groups += vec_groups(ctx, table)
     groups += mat_groups(ctx)
+    ui = invert_unit(ctx, src)
+    ctx.functions_under_contract += ui.functions
+    groups += invert_groups(ctx)
     uo, ur = random_units(ctx, src)
     ctx.functions_under_contract += uo.functions + ur.functions
     groups += random_groups(ctx)
